@@ -534,7 +534,7 @@ INNER : 'inner';
 OUTER : 'outer';
 INITIAL : 'initial';
 IDENT : NONDIGIT ( DIGIT | NONDIGIT )* | Q_IDENT;
-STRING : '"' ('\\"' | ~('"'))* '"';
+STRING : '"' ('\\' . | ~('"' | '\\'))* '"';
 //STRING : '"' (S_CHAR | S_ESCAPE | ' ')* '"';
 UNSIGNED_NUMBER : UNSIGNED_INTEGER  ( '.' UNSIGNED_NUMBER? )* ( [eE] [+-]? UNSIGNED_INTEGER)?;
 COMMENT :
